@@ -372,3 +372,33 @@ def bfs(root, depth, check_state, first_ops=None, res=None, menu=OPS):
     if res is not None and deepest:
         res.samples.append({'root': root, 'history': list(deepest), 'distinct_states_in_unit': len(seen)})
     return seen, transitions, traces
+
+
+def read_everything(o, depth=0, seen=None):
+    """Read every public attribute and property (not methods) of a key and of the objects it hands out (identities, subkeys, signatures), three levels
+    deep.  -> number of values read.  Readers are readers: what the key exports afterwards is what it exported before."""
+    if seen is None:
+        seen = set()
+    if id(o) in seen or depth > 3:
+        return 0
+    seen.add(id(o))
+    n = 0
+    for name in dir(o):
+        if name.startswith('_'):
+            continue
+        try:
+            v = getattr(o, name)
+        except Exception:
+            continue
+        if callable(v):
+            continue
+        n += 1
+        try:
+            items = list(v.values()) if isinstance(v, dict) else list(v) if isinstance(v, (list, tuple)) or type(v).__name__ in ('deque', 'SorteDeque') else []
+        except Exception:
+            items = []
+        for x in items[:8]:
+            if hasattr(x, '__dict__') and type(x).__module__.startswith('pgpy'):
+                n += read_everything(x, depth + 1, seen)
+    return n
+
